@@ -397,11 +397,18 @@ impl<'dbg> FatDieRef<'dbg, Function> {
     }
 
     pub fn prolog_end_place(&self) -> Result<PlaceDescriptor<'_>, Error> {
-        let mut place = self.prolog_start_place()?;
+        let start_place = self.prolog_start_place()?;
+        let end_addr = self.end_instruction()?;
+        let mut place = start_place.clone();
         while !place.prolog_end {
             match place.next() {
-                None => break,
-                Some(next_place) => place = next_place,
+                // the prologue end marker must belong to this function,
+                // never walk into the line rows of the functions that follow
+                Some(next_place) if next_place.address < end_addr && !next_place.end_sequence => {
+                    place = next_place
+                }
+                // no marker (code compiled without it): function first instruction
+                _ => return Ok(start_place),
             }
         }
 
